@@ -453,7 +453,9 @@ def enumerate_faults(token, plan, pairs, stride_hp: int):
         for alg in ("none", "HS256", plan["members"][0]["alg"]):
             yield {"kind": "unprotected-alg", "alg": alg}
     raw_payload = plan["b64"] is False
-    for addr, kind in _segs(token):
+    # two passes over the segments: length faults, re-encodings and splices first, the (many) bit flips last
+    for flips in (False, True):
+      for addr, kind in _segs(token):
         raw = raw_payload and kind == "payload"
         try:
             data = _decode(_get(token, addr), raw)
@@ -461,8 +463,10 @@ def enumerate_faults(token, plan, pairs, stride_hp: int):
             continue
         nbits = len(data) * 8
         step = 1 if kind == "signature" else stride_hp
-        for bit in range(0, nbits, step):
-            yield {"kind": "flip", "addr": list(addr), "seg": kind, "bit": bit}
+        if flips:
+            for bit in range(0, nbits, step):
+                yield {"kind": "flip", "addr": list(addr), "seg": kind, "bit": bit}
+            continue
         if kind == "signature":
             for n in range(len(data)):
                 yield {"kind": "truncate", "addr": list(addr), "seg": kind, "n": n}
